@@ -113,9 +113,20 @@ def formulaMass (s : String) : Except MassErr Rat :=
 /-- the phases `Species.from_formula` uses by default: `("(s)", "(l)", "(g)")` -/
 def defaultPhases : List (List Char) := [['(', 's', ')'], ['(', 'l', ')'], ['(', 'g', ')']]
 
+/-- the suffixes `Species.from_formula` appends to `tuple(phases)` — `("(aq)",)` in the source — taken from the
+    generated constants (same expression as `speciesExtraSuffixes` of Model/FormulaFormat.lean, C13);
+    Props/C14 `species_extra_suffix_guard` pins its value. -/
+def speciesExtraSuffixes : List (List Char) := Gen.speciesSuffixesL.drop Gen.speciesPhases.length
+
 /-- `Species.from_formula(s, phases).mass`: the composition is parsed with `suffixes = tuple(phases) + ("(aq)",)` -/
 def speciesMass (phases : List (List Char)) (s : String) : Except MassErr Rat :=
-  formulaMassWith Gen.prefixesL (phases ++ [['(', 'a', 'q', ')']]) s.toList
+  formulaMassWith Gen.prefixesL (phases ++ speciesExtraSuffixes) s.toList
+
+/-- `Solute.from_formula(s).mass` (deprecated class): `Substance.__init__` with
+    `composition=formula_to_composition(formula)` — default prefixes and suffixes — plus the `precipitate` flag,
+    which has no influence on the mass -/
+def soluteMass (s : String) : Except MassErr Rat :=
+  formulaMassWith Gen.prefixesL Gen.suffixesL s.toList
 
 /-- one entry of the mixture: `(Substance.from_formula(key).mass, coefficient)` -/
 def massPair (kv : String × Rat) : Except MassErr (Rat × Rat) :=
@@ -132,11 +143,6 @@ def mixtureFractions (st : List (String × Rat)) : Except MassErr (Option (List 
   match st.mapM massPair with
   | .error e => .error e
   | .ok mv => .ok (massFractions mv)
-
-/-- the suffixes `Species.from_formula` appends to `tuple(phases)`, from the generated constants
-    (same expression as `speciesExtraSuffixes` of Model/FormulaFormat.lean, C13); `speciesMass` writes the value out,
-    Props/C14 `species_extra_suffix_guard` ties the two together. -/
-def speciesExtraSuffixes : List (List Char) := Gen.speciesSuffixesL.drop Gen.speciesPhases.length
 
 /-! ### specification side (independent of the loop above; used in the statements of Props/C14.lean) -/
 
